@@ -1110,6 +1110,9 @@ pub struct NameTree<T> {
 }
 impl<T: Object+DataSize> NameTree<T> {
     pub fn walk(&self, r: &impl Resolve, callback: &mut dyn FnMut(&PdfString, &T)) -> Result<(), PdfError> {
+        self.walk_limited(r, callback, 16)
+    }
+    fn walk_limited(&self, r: &impl Resolve, callback: &mut dyn FnMut(&PdfString, &T), depth: usize) -> Result<(), PdfError> {
         match self.node {
             NameTreeNode::Leaf(ref items) => {
                 for (name, val) in items {
@@ -1117,9 +1120,12 @@ impl<T: Object+DataSize> NameTree<T> {
                 }
             }
             NameTreeNode::Intermediate(ref items) => {
+                if depth == 0 {
+                    bail!("name tree depth exceeded");
+                }
                 for &tree_ref in items {
                     let tree = r.get(tree_ref)?;
-                    tree.walk(r, callback)?;
+                    tree.walk_limited(r, callback, depth - 1)?;
                 }
             }
         }
@@ -1276,6 +1282,9 @@ impl<T: ObjectWrite> ObjectWrite for NumberTree<T> {
 }
 impl<T: Object+DataSize> NumberTree<T> {
     pub fn walk(&self, r: &impl Resolve, callback: &mut dyn FnMut(i32, &T)) -> Result<(), PdfError> {
+        self.walk_limited(r, callback, 16)
+    }
+    fn walk_limited(&self, r: &impl Resolve, callback: &mut dyn FnMut(i32, &T), depth: usize) -> Result<(), PdfError> {
         match self.node {
             NumberTreeNode::Leaf(ref items) => {
                 for &(idx, ref val) in items {
@@ -1283,9 +1292,12 @@ impl<T: Object+DataSize> NumberTree<T> {
                 }
             }
             NumberTreeNode::Intermediate(ref items) => {
+                if depth == 0 {
+                    bail!("number tree depth exceeded");
+                }
                 for &tree_ref in items {
                     let tree = r.get(tree_ref)?;
-                    tree.walk(r, callback)?;
+                    tree.walk_limited(r, callback, depth - 1)?;
                 }
             }
         }
